@@ -6,7 +6,8 @@ sd=${1:-5}
 root=$(cd "$(dirname "$0")/.." && pwd)
 cd $root
 for d in seeded/${2:-*}/; do
-  name=$(basename $d); prop=$(python3 -c "import json;print(json.load(open('$d/meta.json'))['quick_checks_that_catch_it'][0])")
+  name=$(basename $d); prop=$(python3 -c "import json;print((json.load(open('$d/meta.json'))['quick_checks_that_catch_it'] or ['none'])[0])")
+  if [ "$prop" = none ]; then echo "MATRIX seed=$sd $name no quick check catches it (see meta.json)"; continue; fi
   wt=$(mktemp -d /tmp/mxwt.XXXXXX); rmdir $wt
   git -C /repo worktree add -q --detach $wt HEAD || continue
   if git -C $wt apply $root/$d/patch.diff 2>/dev/null; then
